@@ -86,14 +86,28 @@ def _run_cell(cell, tier, seed):
     # 1. differential validation of the model environment on the cell's sample inputs (model and real must both accept)
     out['validated'] = 0
     for kw in cell.get('samples', []):
-        for mode in ('model', cell.get('replay_mode', 'real')):
-            r = concrete(cell, kw, mode)
-            want = cell.get('sample_result', True)
-            if r.get('result') is not want:
-                out['status'] = 'ERROR'
-                out['error'] = 'sample %r in %s world gave %r' % (kw, mode, r)
-                return out
-        out['validated'] += 1
+        want = cell.get('sample_result', True)
+        rmode = cell.get('replay_mode', 'real')
+        rm = concrete(cell, kw, 'model')
+        rr = concrete(cell, kw, rmode)
+        if rm.get('result') is want and rr.get('result') is want:
+            out['validated'] += 1
+            continue
+        # A sample input that fails is a concrete counterexample candidate, not a harness error: the real world decides.
+        if rr.get('result') is False:
+            hit, res = dict(kw), rr
+        elif rm.get('result') is False:
+            hit, res = replay_real(cell, kw)  # step indices are numbered differently in the two worlds: sweep
+        else:
+            hit, res = None, None
+        if hit is not None:
+            out.update(status='REFUTED', cex=dict(kw), cex_message='sample input fails: %r' % (kw,), replay='reproduced',
+                       replay_input=hit, replay_result=res, paths=1, solver_checks=0, solver_s=0.0, timeout_s=timeout)
+            out['wall_s'] = round(time.time() - t0, 2)
+            return out
+        out['status'] = 'ERROR'
+        out['error'] = 'sample %r: model world gave %r, %s world gave %r' % (kw, rm, rmode, rr)
+        return out
     # 2. the solver run
     r = chrun(['sym', cell['module'], cell['function'], str(timeout), str(seed)], timeout + 120)
     out.update({k: r.get(k) for k in ('status', 'paths', 'solver_checks', 'solver_s', 'cex', 'cex_message', 'error', 'messages')})
